@@ -5,6 +5,7 @@ counter returns to its starting value) is C04 (`live_zero_at_end`), that the sin
 kernel/cry.cpp and checked on the real code after every operation of every history by the harness (hook H3).
 -/
 import Wencry.Model.Proc
+import Wencry.Proofs.GetoptCorrect
 namespace Wencry.Props.C15
 open Wencry Wencry.Model.Proc
 
@@ -42,5 +43,27 @@ theorem dirty_state_is_observable (s : PState) (hs : s.hasInstance = true ∨ s.
 
 /-- non-vacuity: encryption always runs the pipeline -/
 example (cfg : Model.File.Cfg) (c h : Nat) (k : Block) (sd p : Bytes) : pipelineThreads (.enc cfg c h k sd p) = some cfg.T := rfl
+
+/-! ### The getopt cursor (the third piece of process-wide state the property names)
+
+Model/Getopt.lean makes glibc's scanner state explicit: `optind` and the private cursor into the option cluster being scanned.
+`get_v_opt` re-initialises it on entry (`optind = 0`, repair F8), so a command line parsed after any history of accepted,
+rejected or abandoned command lines gives what it gives in a fresh process. (`Props/Pinned.lean` shows that the pinned
+`optind = 1` does not achieve this.) -/
+section getopt
+open Wencry.Model.Getopt
+
+theorem command_line_independent_of_scanner_state (env : Env) (g : GState) (argv : List Bytes) :
+    (getVOptArgv resetFixed env g argv).1 = (getVOptArgv resetFixed env GState.fresh argv).1 :=
+  Proofs.Getopt.fixed_outcome_independent_of_state env g argv
+
+theorem command_line_history_equals_fresh (env : Env) (g : GState) (hist : List (List Bytes)) :
+    runHistory resetFixed env g hist = hist.map (fun argv => (getVOptArgv resetFixed env GState.fresh argv).1) :=
+  Proofs.Getopt.fixed_history_equals_fresh env g hist
+
+/-- non-vacuity: a scan abandoned inside the cluster `-edv` does leave a non-initial scanner state behind -/
+example : (getVOptArgv resetFixed ⟨[], []⟩ GState.fresh [[87], [45, 101, 100, 118]]).2 = ⟨1, [118]⟩ := by decide
+
+end getopt
 
 end Wencry.Props.C15
